@@ -164,7 +164,8 @@ Fixpoint elab (f : nat) (o : wopts) (e : env) (s : schema) (v : pyval) {struct f
     | SMap vs =>
         match v with
         | PDict kv => let+ r := elab_map (elab f o e) vs kv in WOk (AMap r)
-        | PList _ | PTuple _ | PStr _ | PBytes _ | PByteArray _ => WUnspec
+        | PList (_ :: _) | PTuple (_ :: _) => WErr           (* len > 0, then datum.items(): AttributeError *)
+        | PList [] | PTuple [] | PStr _ | PBytes _ | PByteArray _ => WUnspec
         | _ => WErr
         end
     | SRecord _ _ fs =>
